@@ -73,6 +73,9 @@ type OpCtx struct {
 	RandDraws  int   // how often the library drew a random number during the op
 	Sites      []int // if RecSites: site sequence (bounded)
 	RecSites   bool
+	kids       int    // goroutines started by the library during this op that are still alive
+	hookParent *OpCtx // ops of spawned goroutines: the op of the caller that started them
+	noHookFail bool   // the op has started goroutines: no injected hook failure from here on
 }
 
 type task struct {
@@ -88,6 +91,7 @@ type task struct {
 	since    int    // steps since it last got the processor
 	finished int    // number of ops finished
 	parentOp *OpCtx // spawned children: the op of the task that spawned them
+	gen      uint64 // spawned children: the run they belong to
 }
 
 // SwitchEvent is one entry of the run's event log.
@@ -113,7 +117,7 @@ type Stats struct {
 	Hash            uint64
 }
 
-const maxTasks = 40
+const maxTasks = 64
 const maxLog = 2048
 
 var (
@@ -135,9 +139,56 @@ var (
 	abortFn  func(reason string)
 	hardCap  uint64
 	capHit   bool
-	liveKids int // goroutines spawned by the library itself that have not finished
-	planned  int // tasks of the plan (the rest of tasks[:ntasks] are spawned children)
+	liveKids int    // goroutines spawned by the library itself that have not finished
+	planned  int    // tasks of the plan (the rest of tasks[:ntasks] are spawned children)
+	gen      uint64 // run generation: goroutines left over from an earlier run never wake up again
+	pickSeed uint64 // != 0: the next task is drawn from this stream instead of round-robin
+	pickPos  uint64
+	spawned  int  // goroutines the library started since the last Reset
+	harness  bool // some harness has driven the simulator in this process (false: the repository's own tests)
 )
+
+// SetPick makes the scheduler draw the task to switch to from a seeded stream
+// (0: round-robin in task order).
+//
+//go:norace
+func SetPick(seed uint64) { pickSeed, pickPos = seed, 0 }
+
+// Spawned reports how many goroutines the library started since the last Reset.
+//
+//go:norace
+func Spawned() int { return spawned }
+
+// schedRand is the scheduler's own deterministic stream (select choices, task picks).
+//
+//go:norace
+func schedRand() uint64 {
+	pickPos++
+	z := pickSeed + pickPos*0x9e3779b97f4a7c15
+	z = (z ^ (z >> 30)) * 0xbf58476d1ce4e5b9
+	z = (z ^ (z >> 27)) * 0x94d049bb133111eb
+	return z ^ (z >> 31)
+}
+
+// Abandon ends the current scheduled run from inside (an abort handler that does
+// not want to take the process down): every goroutine of the run, including the
+// caller, stays parked for good. It does not return.
+func Abandon() {
+	abandon()
+	parkForever()
+}
+
+//go:norace
+func abandon() {
+	gen++
+	cur = -1
+}
+
+// parkForever: a goroutine that belongs to an earlier run (the library leaked it
+// or it was blocked for good when that run ended) must never run again.
+func parkForever() {
+	select {}
+}
 
 // RegisterSites is called from the generated init functions of the
 // instrumented packages.
@@ -163,6 +214,7 @@ func Steps() uint64 { return steps }
 //
 //go:norace
 func Reset() {
+	harness = true
 	mode = ModeOff
 	orderSeam = false
 	steps = 0
@@ -183,7 +235,13 @@ func Reset() {
 	capHit = false
 	liveKids = 0
 	planned = 0
+	gen++
+	pickSeed, pickPos = 0, 0
+	spawned = 0
+	procs, procReads = 0, 0
 	clockReset()
+	chanReset()
+	wgReset()
 }
 
 //go:norace
@@ -268,6 +326,7 @@ func StartRun(k int, first int, q int, points []Point) {
 	ntasks = k
 	planned = k
 	quantum = q
+	gen++
 	for i := 0; i < k; i++ {
 		tasks[i] = task{id: i, opIdx: -1, parked: -1}
 	}
@@ -308,7 +367,11 @@ func BeginMain() {
 //
 //go:norace
 func TaskEnter(id int) {
+	g := gen
 	for cur != id {
+		if gen != g {
+			parkForever()
+		}
 		runtime.Gosched()
 	}
 	tasks[id].started = true
@@ -334,6 +397,9 @@ func TaskExit(id int) {
 //
 //go:norace
 func nextRunnable(me, start int) int {
+	if pickSeed != 0 && ntasks > 2 {
+		start = int(schedRand() % uint64(ntasks))
+	}
 	for i := 0; i < ntasks; i++ {
 		c := (start + i) % ntasks
 		if c < 0 {
@@ -382,8 +448,12 @@ func switchFrom(t *task, to int, site int, kind uint8) {
 	t.parked = site
 	t.since = 0
 	me := t.id
+	g := gen
 	cur = to
-	for cur != me {
+	for cur != me || gen != g {
+		if gen != g {
+			parkForever()
+		}
 		runtime.Gosched()
 	}
 }
@@ -495,6 +565,15 @@ func blockedYield() {
 	if streak > 64*(ntasks+1) {
 		// nobody made progress for many full rounds: every unfinished task is
 		// waiting on a modelled primitive held by another parked task.
+		if plannedDone() {
+			// only goroutines the library started are left and all of them wait
+			// for something that will not happen any more: leaked goroutines. The
+			// run is over; they stay parked for good.
+			leaked += liveKids
+			gen++
+			cur = -1
+			parkForever()
+		}
 		abort("deadlock")
 	}
 	to := nextRunnable(t.id, t.id+1)
@@ -503,6 +582,24 @@ func blockedYield() {
 	}
 	switchFrom(t, to, -2, 3)
 }
+
+//go:norace
+func plannedDone() bool {
+	for i := 0; i < planned; i++ {
+		if !tasks[i].done {
+			return false
+		}
+	}
+	return true
+}
+
+var leaked int
+
+// Leaked reports how many goroutines started by the library were still blocked
+// when their run ended (since process start).
+//
+//go:norace
+func Leaked() int { return leaked }
 
 // RunStats returns the counters of the last scheduled run.
 //
@@ -536,21 +633,46 @@ func Log() []SwitchEvent {
 //go:norace
 func ChildSpawn() int {
 	liveKids++
-	if mode != ModeSched {
+	spawned++
+	if !harness {
+		return -2 // no simulator in this process: the goroutine is none of its business
+	}
+	if mode == ModeOff {
 		return -1
 	}
-	if ntasks >= maxTasks {
-		abort("too many goroutines spawned by the library")
+	if mode != ModeSched {
+		if mainTask.op != nil {
+			mainTask.op.noHookFail = true
+		}
+		return -1
 	}
-	id := ntasks
+	id := -1
+	for i := planned; i < ntasks; i++ {
+		if tasks[i].done && tasks[i].started {
+			id = i // a goroutine that has finished: its slot is free again
+			break
+		}
+	}
+	if id < 0 {
+		if ntasks >= maxTasks {
+			abort("too many goroutines spawned by the library")
+		}
+		id = ntasks
+		ntasks++
+	}
 	parent := &tasks[cur]
-	tasks[id] = task{id: id, opIdx: 0, parked: -1, parentOp: parent.op}
+	tasks[id] = task{id: id, opIdx: 0, parked: -1, parentOp: parent.op, gen: gen}
 	if parent.op != nil {
-		tasks[id].op = &OpCtx{Obj: parent.op.Obj, Limit: parent.op.Limit}
+		root := parent.op
+		if root.hookParent != nil {
+			root = root.hookParent
+		}
+		root.kids++
+		root.noHookFail = true
+		tasks[id].op = &OpCtx{Obj: parent.op.Obj, Limit: parent.op.Limit, hookParent: root}
 	} else {
 		tasks[id].op = &OpCtx{Obj: -1}
 	}
-	ntasks++
 	return id
 }
 
@@ -561,7 +683,11 @@ func ChildEnter(id int) {
 	if id < 0 {
 		return
 	}
-	for cur != id {
+	g := tasks[id].gen
+	for cur != id || gen != g {
+		if gen != g {
+			parkForever()
+		}
 		runtime.Gosched()
 	}
 	tasks[id].started = true
@@ -571,7 +697,8 @@ func ChildEnter(id int) {
 //
 //go:norace
 func ChildExit(id int) {
-	if mode != ModeOff {
+	if id != -2 {
+		// (also when the pass that started the goroutine is already over)
 		// a panic in a goroutine the library started cannot be recovered by the
 		// caller and would take the whole process down; the simulator records it
 		// on the spawning op instead, as an outcome
@@ -584,11 +711,19 @@ func ChildExit(id int) {
 			}
 		}
 	}
-	liveKids--
+	if liveKids > 0 {
+		liveKids-- // (a straggler of an earlier pass finds the counter already reset)
+	}
 	if id < 0 || mode != ModeSched {
 		return
 	}
 	t := &tasks[id]
+	if t.gen != gen {
+		return // straggler of an earlier run
+	}
+	if t.op != nil && t.op.hookParent != nil {
+		t.op.hookParent.kids--
+	}
 	t.done = true
 	to := nextRunnable(id, id+1)
 	if to < 0 {
@@ -673,7 +808,8 @@ func waitYield() {
 //
 //go:norace
 func WaitChildren() {
-	for i := 0; i < 1000000 && liveKids > 0; i++ {
+	g := gen
+	for i := 0; i < 1000000 && liveKids > 0 && gen == g; i++ {
 		runtime.Gosched()
 	}
 }
